@@ -1032,6 +1032,7 @@ def _external(interp, name):
     def f(*args, **kw):
         if interp.external_call is None:
             raise EngineLimit('external call %s without a model' % name)
+        interp.externals_used.add(name)
         return interp.external_call(interp, name, list(args), list(kw.items()))
     f.__name__ = name
     return f
